@@ -24,6 +24,7 @@ for _n in ('memcmp', 'bcmp'):
     FORBIDDEN_CALLS[_n] = 'raw memory comparison would observe padding that typed copies do not preserve'
 # externals the proof TUs may call (bodies supplied by tools/support_cbmc.c or by CBMC itself)
 ALLOWED_EXTERNAL = r'^(nondet_|verif_|nd_|__CPROVER_|ll2c_|hfsm2_verif_break$)'
+ALLOWED_EXTERNAL_GLOBALS = r'^ck[0-7]$'
 
 # ----------------------------------------------------------------------------- tokenizer
 
@@ -1112,6 +1113,8 @@ def emit_module(mod, out, contracts=None, aliases=None):
         cn = 'G_' + cname(gname)
         cty = em.ct(t)
         if is_ext or tk.eof() or tk.peek()[1] == ',':
+            if not re.match(ALLOWED_EXTERNAL_GLOBALS, gname):
+                raise Unsupported('external global ' + gname)
             gdecl.append('extern %s %s;' % (cty, cn))
             continue
         # string literal capture for __CPROVER_assert messages
